@@ -50,4 +50,10 @@ META["C04"] = {
     "technique": "exhaustive grid enumeration + property-based testing (rapid); oracle: executable model of the statement with spy keys",
 }
 
+META["C13"] = {
+    "text": "Exhaustive enumeration of the header-rule grid (about 170 000 cells, each evaluated on the encode side under every Go integer spelling and on the decode side) plus property-based random multi-parameter headers; three-way comparison of encode verdict, decode verdict and an independent RFC 9052 section 3.1 judge. Enumeration is right because the rules are a finite table over (label, value kind, bucket, context, spelling).",
+    "note": TRUST,
+    "technique": "exhaustive grid enumeration + property-based testing (rapid); oracle: encode/decode differential and reference RFC 9052 3.1 rules",
+}
+
 NOT_APPLICABLE = {}
